@@ -30,7 +30,14 @@ func resumeWithConfig(state *State, conn net.PacketConn, rAddr net.Addr, config 
 		return nil, err
 	}
 
-	return createConn(conn, rAddr, config, internalState.IsClient, internalState)
+	resumed, err := createConn(conn, rAddr, config, internalState.IsClient, internalState)
+	if err != nil {
+		return nil, err
+	}
+	// (the imported state object is the one the connection runs on)
+	resumed.primeReplayWindow(internalState.Common, state.remoteEpoch, state.acceptedRemoteSequence)
+
+	return resumed, nil
 }
 
 // ResumeWithOptions imports an already established dtls connection using a specific dtls state.
